@@ -32,11 +32,11 @@ from ..mutate import mutate, remove_stmts, replace_expr, replace_stmt, parse_stm
 from ..model import AnalysisError
 from ..x_taint import flow_taint, expr_tainted, regex_guard, regex_cleaner, guards_in, detects_all, HelperSummaries, Guard, resolve_pattern
 from ..x_flow import expand_locals
-from ..x_peval import UNK, peval, try_fold, make_resolver, pure_self_methods
+from ..x_peval import UNK, peval, try_fold, make_resolver, pure_self_methods, module_constants, class_constants
 from ..x_cookie import analyse as analyse_cookie, text_params
 
 from ..x_http import norm_func
-from ..x_objalias import subst_object_aliases
+from ..x_objalias import subst_object_aliases, inline_constants, through_local
 
 # private helpers that the rules model by name (sanitisers / summarised effects) and therefore must stay calls
 KEEP_CALLS = {"_format_chunk", "_convert_header_value", "_clear_representation_headers", "_can_keep_alive", "_compressible_type",
@@ -47,7 +47,7 @@ def F(ck, relpath, qualname):
     """The anchored function with its private same-file helpers inlined (function splitting is followed, depth 3)."""
     fi = ck.func(relpath, qualname)
     try:
-        return subst_object_aliases(norm_func(ck.repo, fi, depth=3, no_inline=KEEP_CALLS))
+        return inline_constants(subst_object_aliases(norm_func(ck.repo, fi, depth=3, no_inline=KEEP_CALLS)))
     except AnalysisError:
         raise
     except Exception as e:  # the normaliser must never turn into a verdict
@@ -167,9 +167,9 @@ def _header_writers(ck):
                         out.append((fi, node, "__setitem__", t.slice, st.value, st))
             for c in q.calls(st):
                 if isinstance(c.func, ast.Attribute) and q.dotted(c.func.value) == "self._headers" and c.func.attr in ("add", "update", "setdefault", "parse_line"):
-                    if c.func.attr != "add" or len(c.args) < 2:
+                    if c.func.attr != "add" or q.arg(c, 0, "name") is None or q.arg(c, 1, "value") is None:
                         raise AnalysisError("%s writes self._headers through %s(): unknown idiom" % (fi.qualname, c.func.attr))
-                    out.append((fi, node, "add", c.args[0], c.args[1], c))
+                    out.append((fi, node, "add", q.arg(c, 0, "name"), q.arg(c, 1, "value"), c))
     return out
 
 
@@ -185,7 +185,7 @@ def check_value_sanitized(ck, writers):
     # the indirect producers use the sanitising APIs
     for qn, callee, what in ((RH + ".redirect", "self.set_header", "Location"), (RH + ".flush", "self.add_header", "Set-Cookie")):
         fi = F(ck, WEB, qn)
-        cs = [c for _n, c in call_sites(fi, callee) if isinstance(q.arg(c, 0), ast.Constant) and q.arg(c, 0).value == what]
+        cs = [c for _n, c in call_sites(fi, callee) if isinstance(q.arg(c, 0, "name"), ast.Constant) and q.arg(c, 0, "name").value == what]
         ck.ob("C07.value-sanitized", fi, fi.node, len(cs) >= 1 or absent(fi, "%s(%r, ..)" % (callee, what)), "%s emits %s through %s (the value check applies)" % (qn, what, callee), construct="%s not emitted through %s" % (what, callee))
 
 
@@ -257,7 +257,9 @@ def _list_guards(ck, fi):
         for t in cfg.stmt_nodes(lambda m: m.kind == "test"):
             if not any(t.ast is x for st in n.ast.body for x in ast.walk(st)):
                 continue
-            g = regex_guard(ck.repo, fi, t.ast)
+            # the match may have been stored in an explaining local first (m = P.search(line); if m is None: ...)
+            keep0 = {q.dotted(c.func.value) for c in q.calls(fi.node) if isinstance(c.func, ast.Attribute) and c.func.attr in ("append", "extend", "insert") and q.dotted(c.func.value)}
+            g = regex_guard(ck.repo, fi, expand_locals(fi, t.ast, keep=keep0 | {tgt.id}))
             if g is not None and g.var == tgt.id:
                 out.append((n, t, g, n.ast.iter, None))
     # containers that are built up step by step keep their name (expanding them would replace the list by its
@@ -298,37 +300,48 @@ def _probe_final_guard(ck, fi):
     if not getall:
         raise AnalysisError("write_headers does not read the header lines through %s.get_all(): cannot probe the guard" % hd)
     key = "call:" + q.unparse(getall[0])
-    writes = {n.id: c for n, c in call_sites(fi, "self.stream.write") if not isinstance(q.arg(c, 0), ast.Constant)}
+    writes = {n.id: c for n, c in call_sites(fi, "self.stream.write") if not isinstance(q.arg(c, 0, "data"), ast.Constant)}
     if not writes:
         raise AnalysisError("write_headers: stream.write(<header block>) not found")
     known = {m: None for m in pure_self_methods(ck.repo, H1, "HTTP1Connection")}
     known["_format_chunk"] = None
     resolver = make_resolver(ck.repo, H1, "HTTP1Connection")
 
+    def rx_of(expr):
+        try:
+            return resolve_pattern(ck.repo, fi, expr)
+        except AnalysisError:
+            return None
+
     def run(reason, pairs):
         seen = []
 
         def hook(n, env):
             if n.id in writes:
-                seen.append(try_fold(q.arg(writes[n.id], 0), env))
+                # only a path on which every branch was decided is evidence; anything else is "as far as I can see"
+                seen.append((try_fold(q.arg(writes[n.id], 0, "data"), env), bool(env.get("@undecided"))))
             return None
 
-        init = {"self.is_client": False, "self._request_start_line.version": "HTTP/1.1", "self._request_start_line.method": "GET",
+        init = module_constants(fi)
+        init.update(class_constants(ck.repo, H1, "HTTP1Connection"))
+        init.update({"self.is_client": False, "self._request_start_line.version": "HTTP/1.1", "self._request_start_line.method": "GET",
                 "self._disconnect_on_finish": False, sl + ".code": 200, sl + "[1]": 200, sl + "[2]": reason, sl + ".reason": reason,
-                hd: frozenset(n_ for n_, _v in pairs), key: tuple(pairs), "call:self.stream.closed()": False, ps[3]: None, "@resolve": resolver}
+                hd: frozenset(n_ for n_, _v in pairs), key: tuple(pairs), "call:self.stream.closed()": False, ps[3]: None, "@resolve": resolver, "@rx": rx_of})
         peval(fi.cfg, init, hook=hook, known_self_methods=known, pure_methods=("get_all",), track=lambda t: True)
         return seen
 
-    clean = run("OK", (("Content-Length", "0"), ("X-Probe", "v")))
+    clean = [v for v, und in run("OK", (("Content-Length", "0"), ("X-Probe", "v"))) if not und]
     if not clean or any(v is UNK or not isinstance(v, bytes) for v in clean):
-        raise AnalysisError("write_headers: the written header block cannot be evaluated concretely (%r)" % (clean[:1],))
+        raise AnalysisError("write_headers: cannot be followed concretely to stream.write on a clean response (an undecidable branch lies on the way): the guard is of a shape this rule cannot decide")
     out = []
     for byte in (LF, CR, NUL):
         ch = chr(byte)
         for where, reason, pairs in (("the reason phrase", "OK" + ch + "x", (("Content-Length", "0"),)),
                                      ("a header value", "OK", (("Content-Length", "0"), ("X-Probe", "a" + ch + "b"))),
                                      ("a header name", "OK", (("Content-Length", "0"), ("X" + ch + "Probe", "v")))):
-            for data in run(reason, pairs):
+            for data, und in run(reason, pairs):
+                if und:
+                    continue
                 if data is UNK or not isinstance(data, bytes):
                     raise AnalysisError("write_headers: probe result cannot be evaluated")
                 if ch.encode("latin1") in data.replace(b"\r\n", b""):
@@ -354,7 +367,7 @@ def _final_guard(ck):
         if cex:
             return set()  # nothing can be relied upon from a guard that was refuted
         raise AnalysisError("write_headers: no scan of the header lines with a regex was recognised (for-loop with a guard, next(filter(..)), any(..)), and concrete probing found no counterexample: the guard is of a shape this rule cannot decide")
-    writes = [(n, c) for n, c in call_sites(fi, "self.stream.write") if not isinstance(q.arg(c, 0), ast.Constant)]
+    writes = [(n, c) for n, c in call_sites(fi, "self.stream.write") if not isinstance(q.arg(c, 0, "data"), ast.Constant)]
     ck.floor("C07.final-guard", len(writes), 1, "stream.write(<header block>) in write_headers")
     detected = set()
     for fn, tn, g, lst_expr, found_on in loops:
@@ -399,7 +412,7 @@ def _final_guard(ck):
         derived = tainted_names(fi, [lst])
         # the list that is tested must be the very list the header block is joined from (not one of its contributors)
         for wn, c in writes:
-            a = q.arg(c, 0)
+            a = q.arg(c, 0, "data")
             joined = set()
             names = set(q.names_in(a))
             for st in q.walk_body(fi.node):
@@ -412,14 +425,14 @@ def _final_guard(ck):
             ck.ob("C07.final-guard", fi, lst_expr, joined == {lst}, "the list that is tested ('%s') is the list the header block is joined from (%s): start line and every header line are covered" % (lst, ", ".join(sorted(joined))),
                   construct="guard iterates %s but the block is joined from %s" % ("the joined list" if joined == {lst} else "another list", "it" if joined == {lst} else "a list with more lines"))
         for wn, c in writes:
-            a = q.arg(c, 0)
+            a = q.arg(c, 0, "data")
             ck.ob("C07.final-guard", fi, c, ("@checked", True) in facts[wn.id], "every line was tested after the last modification of '%s' and before stream.write" % lst)
             ck.ob("C07.final-guard", fi, c, expr_tainted(a, derived), "the bytes written are built from the tested list '%s'" % lst, construct="written data not derived from the tested list")
         # header material must not bypass the list: the only route from headers/start_line to the write is the list
         ps = fi.params()
         if len(ps) >= 3:
             for wn, c in writes:
-                a = q.arg(c, 0)
+                a = q.arg(c, 0, "data")
                 names = set()
                 for nm in q.names_in(a):
                     names.add(nm)
@@ -494,8 +507,10 @@ def check_reason(ck):
     # the status line is built from the integer code and _reason only
     fl = F(ck, WEB, RH + ".flush")
     for _n, c in call_sites(fl, "httputil.ResponseStartLine", "ResponseStartLine"):
-        args = [q.dotted(a) if not isinstance(a, ast.Constant) else repr(a.value) for a in c.args]
-        ck.ob("C07.reason", fl, c, len(c.args) == 3 and args[1] == "self._status_code" and args[2] == "self._reason", "the response start line carries the stored status code and the validated reason")
+        a_code, a_reason = q.arg(c, 1, "code"), q.arg(c, 2, "reason")
+        if a_code is None or a_reason is None:
+            raise AnalysisError("RequestHandler.flush: arguments of ResponseStartLine not recognised")
+        ck.ob("C07.reason", fl, c, q.dotted(expand_locals(fl, a_code)) == "self._status_code" and q.dotted(expand_locals(fl, a_reason)) == "self._reason", "the response start line carries the stored status code and the validated reason")
     wh = F(ck, H1, "HTTP1Connection.write_headers")
     sl = wh.params()[1]
     for node in wh.cfg.stmt_nodes(lambda n: n.kind == "stmt"):
@@ -514,7 +529,7 @@ def check_cookie(ck, writers):
     for n in q.walk_body(fl.node):
         if isinstance(n, ast.For) and "self._new_cookie" in q.paths_in(n.iter) and isinstance(n.target, ast.Name):
             for c in q.calls(n):
-                if q.is_call(c, "self.add_header", "self.set_header") and isinstance(q.arg(c, 0), ast.Constant) and q.arg(c, 0).value == "Set-Cookie" and n.target.id in q.names_in(c):
+                if q.is_call(c, "self.add_header", "self.set_header") and isinstance(q.arg(c, 0, "name"), ast.Constant) and q.arg(c, 0, "name").value == "Set-Cookie" and n.target.id in q.names_in(c):
                     emitted.append(c)
     other_readers = [fi.qualname for fi in ck.repo.methods(WEB, RH) if fi.name not in ("set_cookie", "flush") and any(q.dotted(x) == "self._new_cookie" for x in q.walk_body(fi.node) if isinstance(x, ast.Attribute))]
     sanitised_route = len(emitted) >= 1 and not other_readers and not any(fi.name == "flush" and expr_tainted(value, {"self._new_cookie"}) or False for fi, node, kind, name, value, site in writers)
